@@ -28,6 +28,8 @@ type Config struct {
 	Predefined topics.PredefinedTopics
 	// TopicIDRange, if non-zero, replaces the topic id sequence (C04 small range).
 	TopicIDMin, TopicIDMax uint16
+	// AutoBroker, if set, answers what the gateway writes to the broker at once.
+	AutoBroker func(p refmqtt.Pkt) [][]byte
 }
 
 func DefaultConfig() Config {
@@ -94,6 +96,15 @@ func (g *GW) StartWith(sh *gateway.VShared, predefined topics.PredefinedTopics) 
 		g.Dialed++
 		a, _ := vnet.Pair(fmt.Sprintf("mq%d", g.Dialed), true)
 		g.mqGW = a
+		if g.Cfg.AutoBroker != nil {
+			a.Responder = func(b []byte) [][]byte {
+				p, _, err := refmqtt.Parse(b)
+				if err != nil {
+					return nil
+				}
+				return g.Cfg.AutoBroker(p)
+			}
+		}
 		return a
 	})
 	if g.Cfg.TopicIDMax != 0 {
